@@ -273,6 +273,12 @@ ASSUMPTIONS = [
 ]
 
 
+def cleanup(run_dir):
+    """Build output is large (several GB per run) and never reused across source changes: remove it."""
+    for d in ("target", "target_playback", "target_playback_rel"):
+        shutil.rmtree(os.path.join(run_dir, d), ignore_errors=True)
+
+
 def main():
     ap = argparse.ArgumentParser()
     ap.add_argument("prop")
@@ -293,6 +299,7 @@ def main():
     os.makedirs(run_dir, exist_ok=True)
     log = os.path.join(run_dir, "log.txt")
     open(log, "w").close()
+    cleanup(run_dir)
 
     if a.replay:
         return replay_file(a.replay, prop, run_dir, crate, log, tier, seed)
@@ -509,6 +516,8 @@ def main():
         print("INCONCLUSIVE: %s: %s" % (hn, why))
     print("%s %s: %d harnesses, %d passed, %d known-finding checks, %d violations, %d inconclusive, %.0fs (solver %.1fs)" % (
         prop, tier, len(picked), len(passed), len(known_hits), len(violations), len(inconclusive), wall, solver_s))
+    if not os.environ.get("VERIF_KEEP_TARGET"):
+        cleanup(run_dir)
     if violations:
         return 1
     if inconclusive:
